@@ -13,11 +13,12 @@ import traceback
 import warnings
 
 
-def run_shard(prop, tier, seed, shard, nshards):
+def run_shard(prop, tier, seed, shard, nshards, partial_path=None):
     from vf import core
     core.setup_repo_path()
     mod = importlib.import_module('vf.props.%s' % prop.lower())
     ctx = core.Ctx(prop, tier, seed, shard, nshards)
+    ctx.partial_path = partial_path
     # the library draws from the global `random` / `numpy.random` generators: make every shard
     # reproducible from (property, seed, shard); workloads re-seed per case where they replay
     ctx.seed_case('shard-start', tier, shard, nshards)
@@ -34,7 +35,7 @@ def main(argv):
     # Library warnings must be *observable* (C15); never let a filter hide them.
     warnings.simplefilter('default')
     try:
-        res = run_shard(prop, tier, int(seed), int(shard), int(nshards))
+        res = run_shard(prop, tier, int(seed), int(shard), int(nshards), partial_path=out + '.partial')
         res['status'] = 'done'
     except BaseException as exc:  # harness failure -> inconclusive, never a violation
         res = {'status': 'crashed', 'shard': int(shard),
